@@ -24,7 +24,7 @@ def case(rng: Any, ctx: Ctx, index: int) -> None:
     K = int(rng.integers(1, 41 if big else 13))
     if rng.integers(8) == 0:
         K = n + int(rng.integers(0, 3))  # K >= n on purpose
-    dts = [np.float32] + ([np.float64] if ctx.x64 else []) + ([np.float16, jnp.bfloat16] if big and rng.integers(5) == 0 else [])
+    dts = [np.float32] + ([np.float64] if ctx.x64 else []) + ([np.float16, jnp.bfloat16] if rng.integers(5) == 0 else [])
     dt = np.dtype(gen.pick(rng, dts))
     # input batch shape (rank <= 3 in total) and band batch shape broadcastable to it
     brank = int(rng.integers(0, 3))
